@@ -188,6 +188,9 @@ def run(rep):
         rep.case("model-reads-git-index", key=f[:200], nontrivial=True)
         if m == "none":
             rep.disagree("git-written index vs Index.read_index", {"file": f[:2000]}, m, "parsed by dulwich")
+    # extensions through a rewrite: unknown ones kept, git's layout tables and the cache tree dropped, git reads the result
+    import corr_C11_ext
+    corr_C11_ext.run(rep)
 
 
 def replay(rep, body):
